@@ -48,6 +48,7 @@ def evalC11Restart (ins outs : List String) : Oracle.Verdict :=
     else if l != "refused" || a != "1" then .prop "c11_accept_iff" s!"a header the verifier rejects: broadcast {l}, verifier asked={a}"
     else if d != "1" then .prop "c11_accept_iff" s!"delivered={d} (expected exactly the valid header 1)"
     else .ok s!"restart-{(kv? ins "restarts").getD "?"}"
+  | some "stop-succeeded-with-open-subscription", _, _, _, _ => .ok "stop-open-succeeded"   -- nothing left to observe
   | some lc, _, _, _, _ => .prop "c11_total" s!"stop/start failed: {lc}"
   | _, _, _, _, _ => .bad "C11 restart"
 
